@@ -171,10 +171,14 @@ type Explorer struct {
 	outs    map[string]bool
 	nodeCtr int64
 	vioSeen map[string]int // sig -> shortest trace len recorded
+	// linear fallback (VERIF_LINEAR=1, set by the master when rollback exploration disagreed with linear
+	// re-execution, i.e. the application keeps state OUTSIDE the committed store): no rollback shortcut —
+	// every node is rebuilt by restarting the application at the root and re-executing the path
+	linear bool
 }
 
 func NewExplorer(cfg *Config) *Explorer {
-	x := &Explorer{Cfg: cfg, Lib: NewOpLib(), rootV: map[string]int64{}, rootEnv: map[string]Env{}, rootDB: map[string]*World{}}
+	x := &Explorer{Cfg: cfg, Lib: NewOpLib(), rootV: map[string]int64{}, rootEnv: map[string]Env{}, rootDB: map[string]*World{}, linear: os.Getenv("VERIF_LINEAR") != ""}
 	x.W = NewWorld(cfg.Fixture)
 	x.v0 = x.W.Height()
 	x.env0 = x.W.Env
@@ -191,14 +195,41 @@ func (x *Explorer) gotoRoot(root string) {
 	}
 	if v, ok := x.rootV[root]; ok && x.curRoot == root {
 		x.W.Rollback(v, x.rootEnv[root])
+		if x.linear {
+			x.W.Restart()
+		}
 		return
 	}
 	x.W.Rollback(x.v0, x.env0)
+	if x.linear {
+		x.W.Restart() // the root prefix must run on fresh memory too
+	}
 	BuildRoot(x.W, root, x.Lib)
 	x.rootV[root] = x.W.Height()
 	x.rootEnv[root] = x.W.Env
 	x.curRoot = root
 	x.forkRoot(root)
+}
+
+// restore brings the world to the state after root+path: by store rollback (default), or — linear
+// fallback — by rolling back to the root, restarting the application (fresh memory) and re-executing
+// the path.
+func (x *Explorer) restore(root string, path []string, v int64, env Env) {
+	if !x.linear {
+		x.W.Rollback(v, env)
+		return
+	}
+	if root == "" {
+		root = "R0"
+	}
+	x.W.Rollback(x.rootV[root], x.rootEnv[root])
+	x.W.Restart()
+	for _, n := range path {
+		if br := x.W.ExecOp(x.Lib.Get(n)); !br.OK() {
+			panic("linear restore: re-execution of " + n + " failed: " + br.Err)
+		}
+	}
+	x.res.Transitions += int64(len(path))
 }
 
 func (x *Explorer) forkRoot(root string) {
@@ -314,7 +345,7 @@ func (x *Explorer) step(op *Op, parent []Measure, path []string, root string, ph
 						// sweeps), not the op that happened to share the block
 						if len(plan.Txs) == 0 && len(plan.Gov) == 0 {
 							culprit = "block_processing" // nothing but begin/end blockers ran
-						} else if len(plan.Txs) > 0 && x.siblingShows(i, k, v, plan, preV, preEnv) {
+						} else if len(plan.Txs) > 0 && !x.linear && x.siblingShows(i, k, v, plan, preV, preEnv) {
 							culprit = "block_processing"
 						}
 						x.record(Finding{Clause: cl, Culprit: culprit, Disc: disc, Detail: fmt.Sprintf("drift %s -> %s after op %s", orZero(pv), v, op.Name)}, root, path, phase)
@@ -435,8 +466,15 @@ func (x *Explorer) dfs(ph *Phase, ops []*Op, depth, dev int, path []string, pare
 				x.Cfg.NodeHook(x, depth+1, np, root, phase)
 			}
 			rem := ph.Depth - depth - 1
+			if x.linear && rem > 0 {
+				// oracles with internal rollbacks (sibling blocks, drains) may have disturbed memory
+				x.restore(root, np, 0, Env{})
+			}
 			if rem > 0 {
 				key := w.StateKey() + fmt.Sprintf("/%d", dev+op.Dev)
+				if x.linear {
+					key = fmt.Sprintf("linear-%d", x.nodeCtr) // no state merging: memory is not part of the key
+				}
 				if x.seen[key] < rem {
 					x.seen[key] = rem
 					x.dfs(ph, ops, depth+1, dev+op.Dev, np, ms, root, phase)
@@ -445,7 +483,7 @@ func (x *Explorer) dfs(ph *Phase, ops []*Op, depth, dev int, path []string, pare
 				x.Cfg.LeafHook(x, np)
 			}
 		}
-		w.Rollback(v, env)
+		x.restore(root, path, v, env)
 	}
 }
 
@@ -528,7 +566,7 @@ func (x *Explorer) RunUnit(u unit, deadline time.Time) (ret *unitResult) {
 		ok, ms := x.step(op, parent, path, u.Root, u.Phase, judge)
 		if !ok {
 			alive = false
-			w.Rollback(x.rootV[u.Root], x.rootEnv[u.Root])
+			x.restore(u.Root, nil, x.rootV[u.Root], x.rootEnv[u.Root])
 			break
 		}
 		if judge {
@@ -544,6 +582,9 @@ func (x *Explorer) RunUnit(u unit, deadline time.Time) (ret *unitResult) {
 			}
 		}
 		parent = ms
+	}
+	if alive && x.linear && len(path) > 0 {
+		x.restore(u.Root, path, 0, Env{})
 	}
 	if alive {
 		if len(u.Prefix) < ph.Depth {
